@@ -2272,14 +2272,17 @@ func (vm *Thread) growValueStack() {
 
 	for i := range vm.callFrames {
 		cf := &vm.callFrames[i]
-		offset := uintptr(vm.stackOffsetFromToRaw(oldStackPtr, cf.fp))
-		cf.fp = vm.stackAddRaw(newStackPtr, offset)
+		if !cf.isNative {
+			// native frames keep the function name in `fp`
+			offset := uintptr(vm.stackOffsetFromToRaw(cf.fp, oldStackPtr))
+			cf.fp = vm.stackAddRaw(newStackPtr, offset)
+		}
 		for _, upvalue := range cf.upvalues {
 			if upvalue.IsClosed() {
 				continue
 			}
 
-			offset := vm.stackOffsetFromTo(&vm.stack[0], upvalue.slot)
+			offset := vm.stackOffsetFromTo(upvalue.slot, &vm.stack[0])
 			upvalue.slot = vm.stackAdd(&newStack[0], offset)
 		}
 	}
@@ -2289,7 +2292,7 @@ func (vm *Thread) growValueStack() {
 			continue
 		}
 
-		offset := vm.stackOffsetFromTo(&vm.stack[0], upvalue.slot)
+		offset := vm.stackOffsetFromTo(upvalue.slot, &vm.stack[0])
 		upvalue.slot = vm.stackAdd(&newStack[0], offset)
 	}
 
